@@ -29,7 +29,7 @@ SUITES = ["batch", "sequential", "program"]
 RULE = ("a case = a generated finite-state reference object (1..4 states; per (state, method, argument) a row: next state + "
         "returned value or raised exception; state dependent availability of two dynamic members) + a call list of length "
         "0..12 (thorough: ..200) over exposed methods, unexposed / private / missing / dotted names and 9 argument shapes "
-        "(3 of them not fitting the signature), 16 return values (4 of them exception OBJECTS returned as plain values) and 11 "
+        "(3 of them not fitting the signature; low weight: a method returning a live reference to its internal list), 16 return values (4 of them exception OBJECTS returned as plain values) and 11 "
         "raised exceptions (3 of them instances no serializer can send, of types whose other instances can) x serializer (serpent, json, marshal, msgpack) x normal/oneway x server type "
         "(thread, multiplex), all from VERIF_SEED; plus PROGRAMS over up to 4 BatchProxy objects on one Proxy (record a call / "
         "copy.copy / submit, 3..14 steps; non-trivial = at least two submits and two executed calls); the two daemons live for the whole run, so every case runs behind the history of "
@@ -58,11 +58,13 @@ TRUSTED = ["class Ref in harness/props/c11.py stands for 'an arbitrary stateful 
 # ------------------------------------------------------------------------------------------------
 # the alphabet: names, argument shapes, values, exceptions (ids are what travels to the Lean driver)
 # ------------------------------------------------------------------------------------------------
-NAMES = ["m0", "m1", "m2", "u0", "_p0", "__p1", "__init__", "__dict__", "x0", "d0", "d1", "m0.sub"]
+NAMES = ["m0", "m1", "m2", "u0", "_p0", "__p1", "__init__", "__dict__", "x0", "d0", "d1", "m0.sub", "acc"]
+N_ACC = 12       # acc(x, …): appends a marker to the object's internal list and returns THAT LIST (a live reference)
+KNOWN_ALIAS = "batch-result-aliases-later-state"
 N_DYN = (9, 10)
 E_NOROW, E_ARITY, E_PRIVATE, E_MISSING, E_UNEXPOSED, E_PRE = 0, 100, 101, 102, 103, 109
 STATIC_GATE = {0: 0, 1: 0, 2: 0, 3: E_UNEXPOSED, 4: E_PRIVATE, 5: E_PRIVATE, 6: E_PRIVATE, 7: E_UNEXPOSED,
-               8: E_MISSING, 11: E_MISSING}
+               8: E_MISSING, 11: E_MISSING, 12: 0}
 CALLABLE_NAMES = (0, 1, 2, 9, 10)
 ARGS = [
     ((1,), {}),
@@ -145,6 +147,17 @@ VALUE_IDS = {_key(v): i for i, v in enumerate(VALUES)}
 assert len(VALUE_IDS) == len(VALUES)
 
 
+def _is_acc(v):
+    return isinstance(v, list) and len(v) > 0 and all(isinstance(x, str) and re.fullmatch(r"acc\d+", x) for x in v)
+
+
+def _acc_code(v):
+    code = 0
+    for x in reversed(v):
+        code = (int(x[3:]) + 1) + 7 * code
+    return code
+
+
 def _arg_id(x, y, k, y_given, k_given):
     args = [x] + ([y] if y_given == "pos" else [])
     kw = {}
@@ -170,6 +183,7 @@ def make_ref_class():
 
         def reset(self, rows, dyn, q0, hold=False):
             self.rows, self.dyn, self.q, self.log = rows, dyn, q0, []
+            self.items = []
             # hold: the first executed call waits (briefly, bounded) for the NEXT request on the connection to show up.
             # A server that serves a connection's requests in order cannot deliver that request before this call is
             # over, so the wait just runs out; one that runs a oneway batch on the side lets sync() overtake it.
@@ -191,6 +205,9 @@ def make_ref_class():
             if self.hold is not None and not self.log:
                 self.hold.wait(0.05)
             self.log.append((n, a))
+            if n == N_ACC:
+                self.items.append("acc%d" % a)
+                return self.items                  # the live list, not a copy
             row = self.rows.get((self.q, n, a))
             if row is None:
                 raise KeyError("norow")
@@ -212,6 +229,10 @@ def make_ref_class():
         @server.expose
         def m2(self, x, y=_NOTGIVEN, *, k=_NOTGIVEN):
             return self._run(2, x, y, k)
+
+        @server.expose
+        def acc(self, x, y=_NOTGIVEN, *, k=_NOTGIVEN):
+            return self._run(N_ACC, x, y, k)
 
         def u0(self, x, y=_NOTGIVEN, *, k=_NOTGIVEN):     # public but NOT exposed: must never run
             return self._run(3, x, y, k)
@@ -319,6 +340,8 @@ class Env(object):
 
     # ---- canonical forms --------------------------------------------------------------------
     def val_id(self, v):
+        if _is_acc(v):
+            return str(1000 + _acc_code(v))
         i = VALUE_IDS.get(_key(v))
         return str(i) if i is not None else "?" + repr(v)[:60]
 
@@ -532,6 +555,8 @@ def judge_prog(env, case, bouts, souts, eff):
         v = judge(env, sub, bres, sres)
         if v is not None:
             sig, desc = v
+            if sig == KNOWN_ALIAS:
+                return (sig, "program [%s], submit #%d: %s" % (_fmt_ops(eff), k + 1, desc))
             if sig in ("executed-after-failure", "executed-too-few", "state-differs"):
                 sig = "submit-does-not-run-its-recorded-calls"
             return ("program:" + sig, "program [%s], submit #%d (BatchProxy %d, on which %d call(s) were recorded): %s"
@@ -543,12 +568,15 @@ def gen_prog(rng, sers=SERIALIZERS):
     base = gen_case(rng, 6, sers)
     pool = list(base["calls"])
     nops = rng.randint(3, 14)
+    use_acc = rng.random() < 0.05
     ops, nbp, pending = [], 1, {0: 0}
     for _ in range(nops):
         x = rng.random()
         i = rng.randrange(nbp)
         if x < 0.55:
             n, a = pool.pop(0) if pool and rng.random() < 0.5 else (rng.choice([0, 1, 2]), rng.choice(GOOD_ARGS))
+            if use_acc and rng.random() < 0.4:
+                n = N_ACC
             ops.append(["r", i, n, a])
             pending[i] = pending.get(i, 0) + 1
         elif x < 0.72 and nbp < 4:
@@ -577,6 +605,30 @@ def verdict(env, case):
 
 def _exc_same(a, b):
     return type(a) is type(b) and _ADDR.sub("0x", _key(a.args)) == _ADDR.sub("0x", _key(b.args))
+
+
+def _alias_shape(bres, sres):
+    """exactly the known finding and nothing else: same number of results, same exception, and the only differing
+    positions are calls that return the object's internal list, where the batch shows the FINAL list of this batch and the
+    one-by-one run a proper prefix of it (the list at call time).  -> differing positions, or None"""
+    bv, sv = bres["vals"], sres["vals"]
+    if bres["kind"] != "stream" or len(bv) != len(sv):
+        return None
+    if (bres["exc"] is None) != (sres["exc"] is None) or (bres["exc"] is not None and not _exc_same(bres["exc"], sres["exc"])):
+        return None
+    snaps = [v for v in sv if _is_acc(v)]
+    if not snaps:
+        return None
+    final = snaps[-1]
+    diff = []
+    for i, (x, y) in enumerate(zip(bv, sv)):
+        if _key(x) == _key(y) and type(x) is type(y):
+            continue
+        if _is_acc(y) and _is_acc(x) and x == final and len(y) < len(final) and final[:len(y)] == y:
+            diff.append(i)
+        else:
+            return None
+    return diff or None
 
 
 def _grew_after_sync(env, case, sync_at):
@@ -633,6 +685,14 @@ def judge(env, case, bres, sres):
         return None
     if bres["kind"] != "stream":
         return ("no-result-sequence", "%s [%s]: batch() returned %s" % (what, calls, bres["kind"]))
+    alias = _alias_shape(bres, sres)
+    if alias:
+        return (KNOWN_ALIAS,
+                "%s [%s]: %s return the object's internal list itself; the batch serialises its results after the last call, so "
+                "position(s) %s show the list as it is at the END of the batch (%r) where the same calls made one by one return "
+                "it as it is at call time (%s); everything else agrees"
+                % (what, calls, "acc#…", ",".join(str(i) for i in alias), bres["vals"][alias[0]],
+                   ", ".join(repr(sres["vals"][i]) for i in alias[:3])))
     nb = len(bres["vals"])
     if bres["exc"] is not None and nb < len(sres["vals"]) and isinstance(sres["vals"][nb], BaseException) and \
             [_key(v) for v in bres["vals"]] == [_key(v) for v in sres["vals"][:nb]] and _exc_same(bres["exc"], sres["vals"][nb]):
@@ -696,6 +756,7 @@ def gen_case(rng, maxlen, sers=SERIALIZERS):
     case_q0 = rng.randrange(K)
     calls, q, alive = [], case_q0, True
     fail_at = rng.randrange(L) if (mode == "onefail" and L) else -1
+    use_acc = rng.random() < 0.05
     for i in range(L):
         if i == fail_at:
             kind = rng.choice(["gate", "gate", "exc", "exc", "bad", "dynoff"])
@@ -714,6 +775,8 @@ def gen_case(rng, maxlen, sers=SERIALIZERS):
             if mode in ("random", "hostile") and rng.random() < 0.1:
                 names = list(CALLABLE_NAMES)
             n, a = rng.choice(names), rng.choice(GOOD_ARGS)
+            if use_acc and kind == "ok" and rng.random() < 0.45:
+                n = N_ACC                  # low weight family: a method handing out its internal list (known finding)
             if kind == "exc" and alive:
                 # plant a raising row here (state changes before the raise)
                 rows[:] = [rw for rw in rows if (rw[0], rw[1], rw[2]) != (q, n, a)]
@@ -721,7 +784,7 @@ def gen_case(rng, maxlen, sers=SERIALIZERS):
                 rowmap[(q, n, a)] = tuple(rows[-1][3:])
         calls.append([n, a])
         # follow the reference semantics to know the state at the next position
-        if alive:
+        if alive and n != N_ACC:
             g = STATIC_GATE.get(n, dynmap.get((q, n), E_MISSING))
             if g != 0 or a in BAD_ARGS:
                 alive = False
@@ -881,8 +944,15 @@ def _run(ctx, name, n, maxlen, do_model, sers=SERIALIZERS):
             done.append(case)
             if do_model:
                 ml = model_lines(case, pre.get(case["ser"], 0))
-                lines += list(ml)
-                reals += [("batch", case, bline), ("sequential", case, sline)]
+                if v is not None and v[0] == KNOWN_ALIAS:
+                    # the known finding: the oracle has just checked that the batch agrees with the one-by-one run in everything
+                    # but the aliased positions; the model (= the one-by-one spec) is compared with the one-by-one run only
+                    ctx.count("known-finding-case:batch-line-not-compared-with-model")
+                    lines.append(ml[1])
+                    reals.append(("sequential", case, sline))
+                else:
+                    lines += list(ml)
+                    reals += [("batch", case, bline), ("sequential", case, sline)]
         if do_model:
             outs = common.run_driver("drv_c11", lines)
             ctx.corr_cases += len(lines)
@@ -940,7 +1010,9 @@ def _run_progs(ctx, name, n, do_model):
             if len(ctx.samples) < 7 and ncopy and nsub >= 2 and div:
                 ctx.sample({"program": _fmt_ops(eff), "ser": case["ser"], "real": det["line"]})
             done.append(case)
-            if do_model:
+            if do_model and v is not None and v[0] == KNOWN_ALIAS:
+                ctx.count("known-finding-case:program-line-not-compared-with-model")
+            elif do_model:
                 lines.append("prog %d %d %s %s %s %s" % (pre.get(case["ser"], 0), case["q0"], _gate_token(case),
                                                         ",".join(str(a) for a in BAD_ARGS),
                                                         ",".join("%d.%d.%d.%d.%s.%d" % tuple(r) for r in case["rows"]) or "-",
